@@ -32,7 +32,7 @@ Definition Res (c : tcfg) (w : ws) (rec : bytes) (w' : ws) : Prop :=
 Lemma Res_eq c w rec a b : Res c w rec a -> Res c w rec b -> a = b.
 Proof.
   intros (a1 & a2 & a3 & a4 & a5) (b1 & b2 & b3 & b4 & b5).
-  destruct a, b; cbn [w_buf w_shim w_static w_tree w_hash] in *. congruence.
+  destruct a as [ab ash ast atr aha], b as [bb bsh bst btr bha]; cbn [w_buf w_shim w_static w_tree w_hash] in *. congruence.
 Qed.
 
 Lemma Res_trans c w r1 w1 r2 w2 : Res c w r1 w1 -> Res c w1 r2 w2 -> Res c w (r1 ++ r2) w2.
@@ -60,19 +60,19 @@ Qed.
 Lemma append_res c s w w' : append_slice c s w = WOk w' ->
   Res c w s w' /\ fits c (mlen (w_buf w) + mlen s) = true.
 Proof.
-  unfold append_slice, fits, inner_len. intros H.
+  unfold append_slice, fits, inner_len, Res. intros H.
   destruct (t_cap c) as [k|].
   - destruct (N.leb_spec (mlen (w_buf w) + (if t_stream c then stream_prefix_len else 0) + mlen s) k) as [L|L]; cbn [negb] in H; [|discriminate].
     destruct (t_stream c).
     + unfold set_buf in H; cbn [w_buf] in H. rewrite mlen_app in H.
       destruct (N.leb_spec (mlen (w_buf w) + mlen s) shim_max) as [L2|L2]; [|discriminate]. injection H as <-.
       split; [unfold Res, set_shim, set_buf; cbn; rewrite mlen_app; auto|].
-      apply andb_true_iff. split; apply N.leb_le; lia.
-    + injection H as <-. split; [unfold Res, set_buf; cbn; auto|]. apply andb_true_iff. split; [apply N.leb_le; lia|reflexivity].
+      apply andb_true_iff. split; first [reflexivity|apply N.leb_le; lia].
+    + injection H as <-. split; [unfold Res, set_buf; cbn; auto|]. apply andb_true_iff. split; first [reflexivity|apply N.leb_le; lia].
   - cbn [negb] in H. destruct (t_stream c).
     + unfold set_buf in H; cbn [w_buf] in H. rewrite mlen_app in H.
       destruct (N.leb_spec (mlen (w_buf w) + mlen s) shim_max) as [L2|L2]; [|discriminate]. injection H as <-.
-      split; [unfold Res, set_shim, set_buf; cbn; rewrite mlen_app; auto|]. cbn [andb]. apply N.leb_le. lia.
+      split; [unfold Res, set_shim, set_buf; cbn; rewrite mlen_app; auto|]. cbn [andb]. first [reflexivity|apply N.leb_le; lia].
     + injection H as <-. split; [unfold Res, set_buf; cbn; auto|reflexivity].
 Qed.
 
@@ -147,9 +147,20 @@ Definition opt_rec (oh : opt_hdr) (opts : list (N * N * bytes)) : bytes :=
   be16 (mlen (opts_bytes opts)) ++ opts_bytes opts.
 
 Lemma opt_rec_mlen oh opts : mlen (opt_rec oh opts) = 11 + mlen (opts_bytes opts).
-Proof. unfold opt_rec. rewrite !mlen_app. reflexivity. Qed.
+Proof. unfold opt_rec. rewrite !mlen_app. unfold be16, mlen at 1 2 3 4 5 6. cbn [length]. lia. Qed.
 
 Definition NoDeadW (r : wres) : Prop := match r with WPanic _ | WFuel => False | _ => True end.
+
+Lemma patch16_tail a r k v : k + 2 <= mlen r -> patch16 (mlen a + k) v (a ++ r) = a ++ patch16 k v r.
+Proof. intros H. rewrite patch16_app by lia. replace (mlen a + k - mlen a) with k by lia. reflexivity. Qed.
+Lemma p16_3 v a b d x y r : patch16 3 v (a :: b :: d :: x :: y :: r) = a :: b :: d :: v / 256 :: v mod 256 :: r.
+Proof. reflexivity. Qed.
+Lemma p16_5 v a b d e f x y r : patch16 5 v (a :: b :: d :: e :: f :: x :: y :: r) = a :: b :: d :: e :: f :: v / 256 :: v mod 256 :: r.
+Proof. reflexivity. Qed.
+Lemma p16_7 v a b d e f g h x y r : patch16 7 v (a :: b :: d :: e :: f :: g :: h :: x :: y :: r) = a :: b :: d :: e :: f :: g :: h :: v / 256 :: v mod 256 :: r.
+Proof. reflexivity. Qed.
+Lemma p16_9 v a b d e f g h i j x y r : patch16 9 v (a :: b :: d :: e :: f :: g :: h :: i :: j :: x :: y :: r) = a :: b :: d :: e :: f :: g :: h :: i :: j :: v / 256 :: v mod 256 :: r.
+Proof. reflexivity. Qed.
 
 (* ---- the setter closure *)
 Lemma compose_opt_char c oh opts w :
@@ -191,13 +202,10 @@ Proof.
     split; [|split; [exact TB3|split; [exact SI3|split; [exact E3|lia]]]].
     assert (Bp : w_buf w3 = w_buf w ++ [0; 0; 41; oh_udp oh / 256; oh_udp oh mod 256; (oh_ext oh * 256 + oh_ver oh) / 256; (oh_ext oh * 256 + oh_ver oh) mod 256;
               oh_flags oh / 256; oh_flags oh mod 256; 0; 0]).
-    { subst w3. unfold set_buf; cbn [w_buf]. rewrite B2.
-      rewrite (patch16_app (w_buf w)) by (fold st; change (mlen [0; 0; 41; 0; 0; 0; 0; 0; 0; 0; 0]) with 11; lia).
-      fold st. replace (st + 3 - st) with 3 by lia. cbn [patch16 firstn skipn app N.to_nat Pos.to_nat Pos.iter_op Nat.add].
-      rewrite (patch16_app (w_buf w)) by (fold st; cbn [mlen length]; unfold be16; cbn [app length]; lia).
-      fold st. replace (st + 5 - st) with 5 by lia. unfold be16 at 1. cbn [patch16 firstn skipn app N.to_nat Pos.to_nat Pos.iter_op Nat.add].
-      rewrite (patch16_app (w_buf w)) by (fold st; unfold be16; cbn [mlen length app]; lia).
-      fold st. replace (st + 7 - st) with 7 by lia. unfold be16. cbn [patch16 firstn skipn app N.to_nat Pos.to_nat Pos.iter_op Nat.add]. reflexivity. }
+    { subst w3. unfold set_buf; cbn [w_buf]. rewrite B2. unfold st.
+      rewrite patch16_tail by (unfold mlen; cbn [length]; lia). rewrite p16_3.
+      rewrite patch16_tail by (unfold mlen; cbn [length]; lia). rewrite p16_5.
+      rewrite patch16_tail by (unfold mlen; cbn [length]; lia). rewrite p16_7. reflexivity. }
     pose proof (Res_set_buf c w _ [0; 0; 41; oh_udp oh / 256; oh_udp oh mod 256; (oh_ext oh * 256 + oh_ver oh) / 256; (oh_ext oh * 256 + oh_ver oh) mod 256;
               oh_flags oh / 256; oh_flags oh mod 256; 0; 0] w2 R2 eq_refl) as R3.
     rewrite <- Bp in R3. subst w3. unfold set_buf in *. cbn [w_buf w_shim w_static w_tree w_hash] in *. exact R3. }
@@ -218,34 +226,33 @@ Proof.
     pose proof (Res_trans c w _ w3 _ w4 R3 R4) as R34.
     replace (st + 11 - 2) with (st + 9) by lia.
     assert (Bq : patch16 (st + 9) (mlen (opts_bytes opts)) (w_buf w4) = w_buf w ++ opt_rec oh opts).
-    { destruct R34 as (B34 & _). rewrite B34.
-      rewrite (patch16_app (w_buf w)) by (fold st; rewrite mlen_app; cbn [mlen length]; lia).
-      fold st. replace (st + 9 - st) with 9 by lia. unfold opt_rec, be16. cbn [patch16 firstn skipn app N.to_nat Pos.to_nat Pos.iter_op Nat.add].
-      reflexivity. }
+    { destruct R34 as (B34 & _). rewrite B34. unfold st.
+      rewrite patch16_tail by (rewrite mlen_app; unfold mlen at 1; cbn [length]; lia).
+      cbn [app]. rewrite p16_9. unfold opt_rec, be16. reflexivity. }
     rewrite Bq. apply (Res_set_buf c w _ (opt_rec oh opts) w4 R34).
     unfold opt_rec, be16. rewrite !app_length. cbn [length]. lia.
   - (* success implies the total fits *)
     intros w' H. destruct (appends c [opt_header_default; [0; 0]] w) as [w2| | |] eqn:E2; cbn [wbind] in H; try discriminate.
-    destruct (Hbody w2 E2) as (R3 & TB3 & SI3 & E3 & L3). set (w3 := set_buf w2 _) in *.
+    destruct (Hbody w2 eq_refl) as (R3 & TB3 & SI3 & E3 & L3). set (w3 := set_buf w2 _) in *.
     rewrite compose_opts_appends in H.
-    destruct (appends c (opts_chunks opts) w3) as [w4| | |] eqn:E4; try discriminate.
+    destruct (appends c (opts_chunks opts) w3) as [w4|w4| |] eqn:E4; try discriminate.
     + destruct (appends_char c (opts_chunks opts) w3 SI3) as (_ & B & _). destruct (B w4 E4) as ((B4 & _) & _).
       rewrite opts_chunks_concat in B4.
       replace (st + (11 + mlen (opts_bytes opts))) with (mlen (w_buf w4)) by (rewrite B4, mlen_app, L3; lia).
       destruct (opts_chunks opts) as [|x xs] eqn:EO.
       * cbn [appends] in E4. injection E4 as <-. rewrite L3.
         pose proof (appends_ok_fits c _ w w2 E2 ltac:(discriminate)) as F2.
-        destruct (Hhead w2 E2) as ((B2 & _) & _). rewrite B2, mlen_app in F2. exact F2.
+        destruct (Hhead w2 eq_refl) as ((B2 & _) & _). rewrite B2, mlen_app in F2. exact F2.
       * eapply appends_ok_fits; [exact E4|discriminate].
-    + destruct (truncate c (mlen (w_buf w2)) w4) in H; discriminate.
+    + destruct (truncate c (mlen (w_buf w2)) w4); discriminate.
   - (* never a panic *)
     destruct (appends c [opt_header_default; [0; 0]] w) as [w2| | |] eqn:E2; cbn [wbind]; auto.
-    destruct (Hbody w2 E2) as (R3 & TB3 & SI3 & E3 & L3). set (w3 := set_buf w2 _) in *.
-    assert (L2 : mlen (w_buf w2) = mlen (w_buf w3)) by (destruct (Hhead w2 E2) as ((B2 & _) & _); rewrite L3, B2, mlen_app; reflexivity).
+    destruct (Hbody w2 eq_refl) as (R3 & TB3 & SI3 & E3 & L3). set (w3 := set_buf w2 _) in *.
+    assert (L2 : mlen (w_buf w2) = mlen (w_buf w3)) by (destruct (Hhead w2 eq_refl) as ((B2 & _) & _); rewrite L3, B2, mlen_app; reflexivity).
     rewrite compose_opts_appends.
     destruct (appends_char c (opts_chunks opts) w3 SI3) as (_ & _ & N4).
     pose proof (compose_opts_spec c opts w3 TB3 SI3) as S4. rewrite compose_opts_appends in S4.
-    destruct (appends c (opts_chunks opts) w3) as [w4| | |]; auto.
+    destruct (appends c (opts_chunks opts) w3) as [w4|w4| |]; auto.
     + destruct S4 as (E4 & _). destruct (_ <=? rdlen_max); [exact I|].
       rewrite L2, (truncate_back c w3 w4 TB3 SI3 E4). exact I.
     + rewrite L2, (truncate_back c w3 w4 TB3 SI3 S4). exact I.
@@ -353,7 +360,7 @@ Proof.
     pose proof (append_slice_spec c opt_header_default w TB SI) as S1.
     destruct (append_slice c opt_header_default w) as [w1| | |]; cbn [wbind] in H; try discriminate.
     destruct S1 as (E1 & TB1 & SI1). pose proof (append_slice_spec c [0; 0] w1 TB1 SI1) as S2.
-    destruct (append_slice c [0; 0] w1) as [w2'| | |]; cbn [wbind] in H; try discriminate. injection H as <-.
+    destruct (append_slice c [0; 0] w1) as [w2'| | |]; cbn [wbind] in H; try discriminate. injection H as ->.
     destruct S2 as (E2 & _).
     assert (E02 : Ext c st w w2) by (eapply Ext_trans; eauto; apply Ext_mlen in E1; exact E1).
     split; [rewrite B2, mlen_app; reflexivity|]. split; [apply truncate_back; auto|exact E02]. }
@@ -368,36 +375,34 @@ Proof.
     destruct (N.leb_spec (mlen (opts_bytes opts)) rdlen_max) as [LL|LL]; [|unfold rdlen_max in LL; lia].
     eexists. split; [reflexivity|]. replace (st + 11 - 2) with (st + 9) by lia.
     assert (Bq : patch16 (st + 9) (mlen (opts_bytes opts)) (w_buf w8) = w_buf w ++ opt_rec oh opts).
-    { rewrite B8. rewrite (patch16_app (w_buf w)) by (fold st; rewrite opt_rec_mlen; lia).
-      fold st. replace (st + 9 - st) with 9 by lia. unfold opt_rec, be16. cbn [patch16 firstn skipn app N.to_nat Pos.to_nat Pos.iter_op Nat.add].
-      reflexivity. }
+    { rewrite B8. unfold st. rewrite patch16_tail by (rewrite opt_rec_mlen; lia).
+      unfold opt_rec, be16. cbn [app]. rewrite p16_9. reflexivity. }
     rewrite Bq. apply (Res_set_buf c w _ (opt_rec oh opts) w8 R8). reflexivity.
   - intros w' H. destruct (appends c [opt_header_default; [0; 0]] w) as [w2| | |] eqn:E2; cbn [wbind] in H; try discriminate.
-    destruct (Hhead w2 E2) as (L2 & T2 & _). rewrite T2, Hchain in H.
-    destruct (appends c chain w) as [w8| | |] eqn:E8; try discriminate.
-    + destruct (B3 w8 E8) as ((B8 & _) & _). rewrite Econc in B8.
+    destruct (Hhead w2 eq_refl) as (L2 & T2 & _). rewrite T2, Hchain in H.
+    destruct (appends c chain w) as [w8|w8| |] eqn:E8; try discriminate.
+    + destruct (B3 w8 eq_refl) as ((B8 & _) & _). rewrite Econc in B8.
       replace (st + (11 + mlen (opts_bytes opts))) with (mlen (w_buf w8)) by (rewrite B8, mlen_app, opt_rec_mlen; fold st; lia).
       eapply appends_ok_fits; [exact E8|subst chain; discriminate].
-    + destruct (truncate c (mlen (w_buf w2)) w8) in H; discriminate.
+    + destruct (truncate c (mlen (w_buf w2)) w8); discriminate.
   - destruct (appends c [opt_header_default; [0; 0]] w) as [w2| | |] eqn:E2; cbn [wbind]; auto.
-    destruct (Hhead w2 E2) as (L2 & T2 & E02). rewrite T2, Hchain.
-    pose proof (conj N3 I) as _.
-    destruct (appends c chain w) as [w8| | |] eqn:E8; auto.
-    + destruct (B3 w8 E8) as ((B8 & _) & _). rewrite Econc in B8.
+    destruct (Hhead w2 eq_refl) as (L2 & T2 & E02). rewrite T2, Hchain.
+    destruct (appends c chain w) as [w8|w8| |] eqn:E8; try exact N3.
+    + destruct (B3 w8 eq_refl) as ((B8 & _) & _). rewrite Econc in B8.
       assert (L8 : mlen (w_buf w8) = st + 11 + mlen (opts_bytes opts)) by (rewrite B8, mlen_app, opt_rec_mlen; fold st; lia).
       rewrite L2, L8. destruct (N.ltb_spec (st + 11 + mlen (opts_bytes opts)) (st + 11)); [lia|].
       replace (st + 11 + mlen (opts_bytes opts) - (st + 11)) with (mlen (opts_bytes opts)) by lia.
       destruct (N.leb_spec (mlen (opts_bytes opts)) rdlen_max) as [LL|LL]; [exact I|unfold rdlen_max in LL; lia].
     + destruct (appends_err c chain w w8 E8) as (Bx & Tx & Sx).
       destruct (truncate_after c w w8 (mlen (w_buf w2)) TB ltac:(fold st; lia) Bx Tx Sx) as (w9 & T9 & _).
-      { intros St. destruct (SI St) as [_ Lw]. destruct (B1 w2 E2) as ((Bw2 & Sw2 & _) & _). rewrite St in Sw2.
+      { intros St. destruct (SI St) as [_ Lw]. destruct (B1 w2 eq_refl) as ((Bw2 & Sw2 & _) & _). rewrite St in Sw2.
         pose proof (appends_ok_fits c _ w w2 E2 ltac:(discriminate)) as F2. unfold fits in F2. rewrite St in F2.
         apply andb_true_iff in F2 as [_ F2]. apply N.leb_le in F2. unfold shim_max in F2. exact F2. }
       rewrite T9. exact I.
   - intros w1 H. destruct (appends c [opt_header_default; [0; 0]] w) as [w2|w2| |] eqn:E2; cbn [wbind] in H; try discriminate.
-    + destruct (Hhead w2 E2) as (L2 & T2 & E02). rewrite T2, Hchain in H.
+    + destruct (Hhead w2 eq_refl) as (L2 & T2 & E02). rewrite T2, Hchain in H.
       destruct (appends c chain w) as [w8|w8| |] eqn:E8; try discriminate.
-      * destruct (B3 w8 E8) as ((B8 & _) & _). rewrite Econc in B8.
+      * destruct (B3 w8 eq_refl) as ((B8 & _) & _). rewrite Econc in B8.
         assert (L8 : mlen (w_buf w8) = st + 11 + mlen (opts_bytes opts)) by (rewrite B8, mlen_app, opt_rec_mlen; fold st; lia).
         rewrite L2, L8 in H. destruct (N.ltb_spec (st + 11 + mlen (opts_bytes opts)) (st + 11)); [lia|].
         replace (st + 11 + mlen (opts_bytes opts) - (st + 11)) with (mlen (opts_bytes opts)) in H by lia.
@@ -438,3 +443,133 @@ Lemma opt_writer_push c s oh opts :
   BW c s -> mlen (opts_bytes opts) <= 65535 -> oh_udp oh < 65536 -> oh_ver oh < 256 -> oh_flags oh < 65536 ->
   mb_push c s (opt_writer c oh opts) = mb_push c s (compose_opt c oh opts).
 Proof. intros. unfold opt_writer. destruct (oh_hdr oh); [reflexivity|apply opt_push_eq; auto]. Qed.
+
+
+(* ---- clone_from keeps the writer invariants, whatever the field values *)
+Lemma appends_spec c : forall l, WSpec c (appends c l).
+Proof.
+  induction l as [|s r IH]; [apply WSpec_ok|].
+  exact (WSpec_bind c (append_slice c s) (appends c r) (append_slice_spec c s) IH).
+Qed.
+
+Lemma compose_opt_clone_spec c oh opts : WSpec c (compose_opt_clone c oh opts).
+Proof.
+  intros w TB SI. unfold compose_opt_clone.
+  pose proof (append_slice_spec c opt_header_default w TB SI) as H1.
+  destruct (append_slice c opt_header_default w) as [w1|w1| |] eqn:EA; cbn [wbind]; auto.
+  destruct H1 as (E1 & TB1 & SI1). pose proof (append_slice_mlen _ _ _ _ EA) as L1.
+  pose proof (append_slice_spec c [0; 0] w1 TB1 SI1) as H2.
+  destruct (append_slice c [0; 0] w1) as [w2|w2| |] eqn:EB; cbn [wbind]; [| eapply Ext_trans; eauto; lia | exact I | exact I].
+  destruct H2 as (E2 & TB2 & SI2). pose proof (append_slice_mlen _ _ _ _ EB) as L2.
+  assert (E02 : Ext c (mlen (w_buf w)) w w2) by (eapply Ext_trans; eauto; lia).
+  change (mlen opt_header_default) with 9 in L1. change (mlen [0; 0]) with 2 in L2.
+  rewrite (truncate_back c w w2 TB SI E02).
+  destruct (rdlen_max <? mlen (opts_bytes opts)); [exact I|].
+  set (chain := [[0]; be16 41; be16 (oh_udp oh); be32 (oh_ttl oh); be16 (mlen (opts_bytes opts)); opts_bytes opts]).
+  assert (Hchain : wbind (acn c [] w) (fun w4 => wbind (append_slice c (be16 41) w4) (fun w5 =>
+             wbind (append_slice c (be16 (oh_udp oh)) w5) (fun w6 => wbind (append_slice c (be32 (oh_ttl oh)) w6) (fun w7 =>
+             wbind (append_slice c (be16 (mlen (opts_bytes opts))) w7) (append_slice c (opts_bytes opts)))))) = appends c chain w).
+  { rewrite acn_root. subst chain. cbn [appends].
+    destruct (append_slice c [0] w) as [a| | |]; cbn [wbind]; auto.
+    destruct (append_slice c (be16 41) a) as [b| | |]; cbn [wbind]; auto.
+    destruct (append_slice c (be16 (oh_udp oh)) b) as [d| | |]; cbn [wbind]; auto.
+    destruct (append_slice c (be32 (oh_ttl oh)) d) as [e| | |]; cbn [wbind]; auto.
+    destruct (append_slice c (be16 (mlen (opts_bytes opts))) e) as [f| | |]; cbn [wbind]; auto.
+    destruct (append_slice c (opts_bytes opts) f); reflexivity. }
+  rewrite Hchain. clear Hchain.
+  assert (Lpos : t_stream c = true -> mlen (w_buf w2) <= 65535) by (intros St; destruct (SI2 St) as [_ X]; exact X).
+  pose proof (appends_spec c chain w TB SI) as HS.
+  destruct (appends c chain w) as [w8|w8| |] eqn:E8; auto.
+  - destruct HS as (E8x & TB8 & SI8).
+    destruct (N.ltb_spec (mlen (w_buf w8)) (mlen (w_buf w2))) as [X|X]; [exact I|].
+    destruct (_ <=? rdlen_max).
+    + apply patch_spec; auto; lia.
+    + destruct (appends_char c chain w SI) as (_ & B & _). destruct (B w8 E8) as ((b1 & _ & b3 & b4 & b5) & _).
+      destruct (truncate_after c w w8 (mlen (w_buf w2)) TB ltac:(lia)) as (w9 & T9 & E9); auto.
+      * eexists; exact b1.
+      * repeat split; assumption.
+      * intros St. apply E8x. exact St.
+      * rewrite T9. exact E9.
+  - destruct (appends_err c chain w w8 E8) as (Bx & Tx & Sx).
+    destruct (truncate_after c w w8 (mlen (w_buf w2)) TB ltac:(lia) Bx Tx Sx Lpos) as (w9 & T9 & E9).
+    rewrite T9. exact E9.
+Qed.
+
+Lemma opt_writer_spec c oh opts : WSpec c (opt_writer c oh opts).
+Proof. unfold opt_writer. destruct (oh_hdr oh); [apply compose_opt_spec|apply compose_opt_clone_spec]. Qed.
+
+Lemma restore_flag : opt_restores_rcode_on_err = true.
+Proof. reflexivity. Qed.
+
+Lemma set_hdr_eta s : set_hdr s (b_hdr s) = s.
+Proof. destruct s; reflexivity. Qed.
+
+(* a failed push leaves the whole builder state as it was (for the OPT push:
+   because AdditionalBuilder::opt puts the header RCODE back, restore_flag) *)
+Lemma step_err_unchanged c s o s' e :
+  BW c s -> step c s o = (s', RErr e) -> s' = s.
+Proof.
+  intros HB H. unfold step in H. destruct o as [q|r|oh opts| | | |l|h]; cbn [step_gen] in H.
+  - destruct (b_sec s =? 0); [|discriminate].
+    destruct (mb_push_cases c s (compose_question c q) HB (compose_question_spec c q)) as [(w' & _ & E & _)|[(e' & E)|(x & E & D)]];
+      rewrite E in H; try discriminate; injection H as <- _; reflexivity || (rewrite <- H in D; discriminate).
+  - destruct (b_sec s =? 0); [discriminate|].
+    destruct (mb_push_cases c s (compose_record c r) HB (compose_record_spec c r)) as [(w' & _ & E & _)|[(e' & E)|(x & E & D)]];
+      rewrite E in H; try discriminate; injection H as <- _; reflexivity || (rewrite <- H in D; discriminate).
+  - destruct (b_sec s =? 3); [|discriminate]. rewrite restore_flag in H.
+    destruct (mb_push_cases c s (opt_writer c oh opts) HB (opt_writer_spec c oh opts)) as [(w' & _ & E & _)|[(e' & E)|(x & E & D)]];
+      rewrite E in H; cbn [fst snd] in H.
+    + injection H as _ X. discriminate.
+    + injection H as <- _. apply set_hdr_eta.
+    + injection H as _ X. rewrite X in D. discriminate.
+  - destruct (b_sec s <? 3); discriminate.
+  - destruct (b_sec s =? 0); [discriminate|]. destruct (rewind c s); discriminate.
+  - destruct (rewind c s); discriminate.
+  - discriminate.
+  - discriminate.
+Qed.
+
+(* clone_from with more option data than a record can hold never succeeds *)
+Lemma clone_long_not_ok c oh opts w w' :
+  TBound w -> SInv c w -> 65535 < mlen (opts_bytes opts) -> compose_opt_clone c oh opts w <> WOk w'.
+Proof.
+  intros TB SI L H. unfold compose_opt_clone in H.
+  pose proof (append_slice_spec c opt_header_default w TB SI) as H1.
+  destruct (append_slice c opt_header_default w) as [w1|w1| |] eqn:EA; cbn [wbind] in H; try discriminate.
+  destruct H1 as (E1 & TB1 & SI1). pose proof (append_slice_mlen _ _ _ _ EA) as L1.
+  pose proof (append_slice_spec c [0; 0] w1 TB1 SI1) as H2.
+  destruct (append_slice c [0; 0] w1) as [w2|w2| |] eqn:EB; cbn [wbind] in H; try discriminate.
+  destruct H2 as (E2 & TB2 & SI2).
+  assert (E02 : Ext c (mlen (w_buf w)) w w2) by (eapply Ext_trans; eauto; lia).
+  rewrite (truncate_back c w w2 TB SI E02) in H.
+  destruct (N.ltb_spec rdlen_max (mlen (opts_bytes opts))) as [X|X]; [discriminate|unfold rdlen_max in X; lia].
+Qed.
+
+(* a successful clone_from push is the setter push *)
+Lemma clone_ok_is_setter c oh opts w w' :
+  TBound w -> SInv c w -> oh_udp oh < 65536 -> oh_ver oh < 256 -> oh_flags oh < 65536 ->
+  compose_opt_clone c oh opts w = WOk w' -> compose_opt c oh opts w = WOk w'.
+Proof.
+  intros TB SI Hu Hv Hf H.
+  destruct (N.le_gt_cases (mlen (opts_bytes opts)) 65535) as [Ld|Ld]; [|exfalso; eapply clone_long_not_ok; eauto].
+  assert (He : oh_ext oh < 256) by (unfold oh_ext; destruct (oh_rc oh); lia).
+  destruct (compose_opt_char c oh opts w TB SI Ld) as (A1 & _).
+  destruct (compose_opt_clone_char c oh opts w TB SI Ld Hu He Hv Hf) as (B1 & B2 & _).
+  pose proof (B2 w' H) as F. destruct (A1 F) as (wa & Ea & Ra). destruct (B1 F) as (wb & Eb & Rb).
+  rewrite H in Eb. injection Eb as <-. rewrite (Res_eq c _ _ _ _ Rb Ra). exact Ea.
+Qed.
+
+Lemma opt_writer_ok_is_setter c oh opts w w' :
+  TBound w -> SInv c w -> oh_udp oh < 65536 -> oh_ver oh < 256 -> oh_flags oh < 65536 ->
+  opt_writer c oh opts w = WOk w' -> compose_opt c oh opts w = WOk w'.
+Proof. unfold opt_writer. destruct (oh_hdr oh); [auto|apply clone_ok_is_setter]. Qed.
+
+Lemma opt_writer_nodead c oh opts w :
+  TBound w -> SInv c w -> oh_udp oh < 65536 -> oh_ver oh < 256 -> oh_flags oh < 65536 ->
+  (oh_hdr oh = false -> mlen (opts_bytes opts) <= 65535) ->
+  NoDeadW (compose_opt c oh opts w) -> NoDeadW (opt_writer c oh opts w).
+Proof.
+  intros TB SI Hu Hv Hf Hd ND. unfold opt_writer. destruct (oh_hdr oh); [exact ND|].
+  assert (He : oh_ext oh < 256) by (unfold oh_ext; destruct (oh_rc oh); lia).
+  destruct (compose_opt_clone_char c oh opts w TB SI (Hd eq_refl) Hu He Hv Hf) as (_ & _ & X & _). exact X.
+Qed.
